@@ -247,7 +247,17 @@ func (engine *Engine) DialAsyncTimeout(network, addr string, timeout time.Durati
 		}
 	}
 
+	// Stop waits for the connections that have been counted: a dial must not
+	// be counted while Stop is waiting already, it is refused when Stop has
+	// begun.
+	engine.mux.Lock()
+	if engine.shutdown {
+		engine.mux.Unlock()
+		_ = syscall.Close(fd)
+		return errors.New("engine stopped")
+	}
 	engine.wgConn.Add(1)
+	engine.mux.Unlock()
 	_, err = engine.addDialer(c)
 	if err != nil {
 		engine.wgConn.Done()
